@@ -455,6 +455,39 @@ var wideEscapes = []string{`\n`, `\t`, `\\`, `\"`, `\x41`, `\xe3\x81\x82`, `\x80
 	`\'`, `\e`, `\q`, `\x4`, `\u12`, `\8`, `\400`}
 
 // TestEscapesInPieces: a wider escape alphabet (whatever the plain string accepts or rejects), plain string vs pieces.
+// TestLongNames: two names longer than any hashing shortcut that differ in a single position are different variables,
+// properties and symbols.
+func TestLongNames(t *testing.T) {
+	vt.Check(t, vt.N(600, 40000), func(rt *rapid.T) {
+		n := rapid.IntRange(20, 90).Draw(rt, "len")
+		b := make([]byte, n)
+		for i := range b {
+			b[i] = "abcdefghijklmnopqrstuvwxyz_0123456789"[rapid.IntRange(0, 26).Draw(rt, "ch")]
+		}
+		b[0] = 'q'
+		a := string(b)
+		pos := rapid.IntRange(1, n-1).Draw(rt, "pos")
+		c := []byte(a)
+		if c[pos] == 'x' {
+			c[pos] = 'y'
+		} else {
+			c[pos] = 'x'
+		}
+		other := string(c)
+		suffix := rapid.SampledFrom([][2]string{{"", ""}, {"?", "!"}, {"?", "?"}, {"!", ""}}).Draw(rt, "suffix")
+		if suffix[0] != suffix[1] && rapid.Bool().Draw(rt, "only suffix differs") {
+			other = a
+		}
+		a, other = a+suffix[0], other+suffix[1]
+		if a == other {
+			return
+		}
+		src := fmt.Sprintf("%[1]s := 1; %[2]s := 2; o := {%[1]s: 3, %[2]s: 4}; [%[1]s, %[2]s, o.keys.len, o.%[1]s, o.%[2]s, '%[1]s == '%[2]s, %%{'%[1]s: 5, '%[2]s: 6}.len, {|%[1]s: 7, %[2]s: 8| [%[1]s, %[2]s]}(%[2]s: 9)]", a, other)
+		cs := Case{Form: "long-names", Src: src, Want: "inspect:[1, 2, 2, 3, 4, false, 2, [7, 9]]"}
+		run(rt, cs, true, true)
+	})
+}
+
 func TestEscapesInPieces(t *testing.T) {
 	vt.Check(t, vt.N(3000, 200000), func(rt *rapid.T) {
 		var b strings.Builder
